@@ -70,6 +70,22 @@ Definition parse_usize (s : string) : option Z :=
       else parse_digits 0 s
   end.
 
+(* SPECIFICATION of the accepted syntax, independent of the digit loop above: an optional '+', then at least one
+   character, all of them ASCII digits, whose (unbounded) decimal value is below 2^64.
+   Proofs/ThreadPoolProofs.v [parse_usize_spec] proves that [parse_usize] is exactly this. *)
+Fixpoint digits_val (acc : Z) (s : string) : option Z :=
+  match s with
+  | EmptyString => Some acc
+  | String c r => match digit_of c with None => None | Some d => digits_val (acc * 10 + d) r end
+  end.
+
+Definition spec_parse_usize (s : string) : option Z :=
+  let body := match s with String c r => if Ascii.eqb c "+" then r else s | EmptyString => s end in
+  match body with
+  | EmptyString => None
+  | _ => match digits_val 0 body with Some v => if v <? USIZE then Some v else None | None => None end
+  end.
+
 (* ---------------------------------------------------------------------------------------------- *)
 (* configuration                                                                                  *)
 (* ---------------------------------------------------------------------------------------------- *)
